@@ -15,7 +15,14 @@ from vlib import *
 RULE = ('h,p,K = k/4 (k>=1); custom pmfs on 0..D, D in 1..8, dyadic probabilities (denominator 4..64) with zero-probability '
         'points (also at 0 and at D) and short supports; Poisson means on a 0.5-grid in 0.5..20; integer s<S with S-s>D in ~40% '
         'of the custom cost cases; separate malformed stream (non-positive cost parameter, s>=S, p0=1, wrong pmf length). '
-        'non-trivial = S-s>=2 (cost cases) / returned S-s>=2 (exact-algorithm cases); distinct = distinct parameter tuples.')
+        'Call-sequence stream (kind seq_custom): 3..7 consecutive calls in one process (cost of a pair / exact algorithm with a custom pmf, now and then a Poisson cost '
+        'call in between) that mostly share h, p and the pmf LENGTH but differ in the pmf contents (some steps repeat an earlier pmf, pair or parameter set, a few change '
+        'K, h/p or the length), the pmf being handed over in one of three ways: "inplace" = ONE caller-owned list object whose contents are overwritten before each call, '
+        '"fresh" = a temporary list built per call and released before the next one is built, the next one being allocated at the SAME address (id) whenever CPython '
+        'hands that block out again within 300 allocations (count recorded), "held" = a new list per call, all kept alive; the first call is repeated at the end. '
+        'Every step is judged on its own by the oracle (which shares no state with the library), the caller\'s list must be unchanged by the call, and the repeated '
+        'first call must return the identical value. '
+        'non-trivial = S-s>=2 (cost cases) / returned S-s>=2 (exact-algorithm cases) / a sequence with >=2 different pmfs and some S-s>=2; distinct = distinct parameter tuples.')
 
 FUEL = 600
 DEFS = '''
@@ -27,8 +34,9 @@ Definition obs3 (t : Z * Z * Q) := let '(a, b, q) := t in (a, b, qobs q).
 
 
 # ------------------------------------------------------------------------------------------------ generator
-def gen_pmf(rng):
-    D = rng.choice([1, 1, 2, 2, 3, 3, 4, 5, 6, 7, 8])
+def gen_pmf(rng, D=None):
+    if D is None:
+        D = rng.choice([1, 1, 2, 2, 3, 3, 4, 5, 6, 7, 8])
     den = rng.choice([4, 8, 16, 64])
     while True:
         supp = [d for d in range(D + 1) if rng.random() < 0.6]
@@ -426,6 +434,209 @@ def compare_model(chk, c, r, m):
                 chk.mismatch('exact algorithm: same pair (%d,%d) but cost model %r vs implementation %r' % (ms, mS, float(mg), float(r[3])), c)
 
 
+# ------------------------------------------------------------------------------------------------ call sequences
+# The property speaks about "the cost reported for a given (s,S) pair": a function of the arguments' VALUES. A library that keeps state
+# between calls (memo tables keyed on the identity of the caller's list or on a subset of the parameters, defaults filled in on first use,
+# writes into the caller's list) answers correctly once and wrongly later. This stream runs several calls in a row the way callers do:
+# one forecast list updated in place, a helper that builds a temporary list per scenario, or a list per scenario kept around.
+SEQ_MODES = ['inplace', 'inplace', 'fresh', 'fresh', 'held']
+FRESH_HUNT = 300
+
+
+def gen_seq(rng):
+    D = rng.choice([1, 2, 2, 3, 3, 4, 4, 5, 6, 8])
+    h, p, K = gen_costs(rng, 64)
+    steps, pairs, pmfs = [], [], []
+    for i in range(rng.randint(3, 6)):
+        st = dict(h=h, p=p, K=K)
+        u = rng.random()
+        if steps and u < 0.12:
+            st['K'] = Fraction(rng.randint(1, 64), 4)
+        elif steps and u < 0.22:
+            st['h'], st['p'], _ = gen_costs(rng)
+        if steps and rng.random() < 0.08:          # a Poisson evaluation between two custom ones
+            mu = st['mean'] = rng.choice([0.5, 1.0, 1.5, 2.0, 3.0, 4.5])
+            st['fn'] = 'cost_poisson'
+            if pairs and rng.random() < 0.5:
+                st['s'], st['S'] = rng.choice(pairs)
+            else:
+                st['s'] = rng.randint(-2, int(mu) + 2); st['S'] = st['s'] + rng.randint(1, 8)
+            steps.append(st); continue
+        st['fn'] = 'exact' if rng.random() < 0.25 else 'cost'
+        v = rng.random()
+        if pmfs and v < 0.2: pmf = rng.choice(pmfs)              # the same contents once more
+        elif pmfs and v < 0.3: pmf = gen_pmf(rng)                # another length
+        else: pmf = gen_pmf(rng, D)
+        pmfs.append(pmf); st['pmf'] = pmf
+        if st['fn'] == 'cost':
+            if pairs and rng.random() < 0.6:
+                st['s'], st['S'] = rng.choice(pairs)             # the same pair (the same one-period cost arguments y) as an earlier step
+            else:
+                Dl = len(pmf) - 1
+                n = rng.randint(Dl + 1, Dl + 6) if rng.random() < 0.4 else rng.randint(1, max(1, Dl))
+                st['s'] = rng.randint(-3, Dl + 2); st['S'] = st['s'] + n
+            pairs.append((st['s'], st['S']))
+        steps.append(st)
+    return dict(kind='seq_custom', mode=rng.choice(SEQ_MODES), steps=steps, malformed=None)
+
+
+def step_case(st):
+    """the single-call case (as used by the other streams, the oracle and the model) that a step of a sequence amounts to"""
+    kind = {'cost': 'cost_custom', 'exact': 'exact_custom', 'cost_poisson': 'cost_poisson'}[st['fn']]
+    c = dict(kind=kind, h=st['h'], p=st['p'], K=st['K'], malformed=None)
+    for k in ('pmf', 'mean', 's', 'S'):
+        if k in st: c[k] = st[k]
+    return c
+
+
+def _call_step(ss, st, pm):
+    h, p, K = float(st['h']), float(st['p']), float(st['K'])
+    try:
+        if st['fn'] == 'cost_poisson':
+            return ('ok', _fin(ss.s_s_cost_discrete(st['s'], st['S'], h, p, K, True, st['mean'])))
+        if st['fn'] == 'cost':
+            return ('ok', _fin(ss.s_s_cost_discrete(st['s'], st['S'], h, p, K, False, None, len(pm) - 1, pm)))
+        s, S, g = ss.s_s_discrete_exact(h, p, K, False, None, len(pm) - 1, pm)
+        return ('ok', int(s), int(S), _fin(g))
+    except OverflowError:
+        return ('err', 'NonFiniteResult', 'the implementation returned inf or nan')
+    except Exception as e:
+        return ('err', exc_kind(e), str(e)[:200])
+
+
+def _run_seq(c, info):
+    ss = _ss()
+    mode = c['mode']
+    res, touched = [], []
+    own = None            # 'inplace': the caller's one list
+    held = []             # 'held': every list stays alive; 'fresh': parking place for blocks that are not the one looked for
+    last_id = None
+    steps = list(c['steps']) + [dict(c['steps'][0], _again=True)]       # the first call once more at the end
+    allvals = [tuple(float(x) for x in st['pmf']) if 'pmf' in st else None for st in steps]    # built beforehand: nothing is allocated between two calls
+    for st, vals in zip(steps, allvals):
+        if st['fn'] == 'cost_poisson':
+            res.append(_call_step(ss, st, None)); touched.append(False); continue
+        if mode == 'inplace':
+            if own is None: own = list(vals)
+            else: own[:] = vals                    # a new forecast written into the same list object
+            pm = own
+        elif mode == 'held':
+            pm = list(vals); held.append(pm)
+        else:                                      # 'fresh': the previous list is gone; look for the block it occupied
+            pm = list(vals)
+            if last_id is not None:
+                info['fresh_calls'] += 1
+                tries = 0
+                while id(pm) != last_id and tries < FRESH_HUNT:
+                    held.append(pm); pm = list(vals); tries += 1
+                if id(pm) == last_id: info['fresh_same_id'] += 1
+                del held[:]
+        res.append(_call_step(ss, st, pm))
+        touched.append(tuple(pm) != vals)
+        if mode == 'fresh':
+            last_id = id(pm)
+        del pm                                     # 'fresh': this was the only reference
+    return res, touched
+
+
+def run_seq(c, info):
+    n = len(c['steps']) + 1
+    try:
+        return guarded(lambda: _run_seq(c, info), 10 * n)
+    except TimeoutError as e:
+        TIMEOUTS['n'] += 1
+        return [('err', 'TimeoutError', str(e))] * n, [False] * n
+
+
+ISOLATED = {'n': 0}
+
+
+def isolated_value(st):
+    """the same single call in a new interpreter (nothing evaluated before it); only used to word a report. Returns text."""
+    if ISOLATED['n'] >= 2: return None
+    ISOLATED['n'] += 1
+    import subprocess, sys
+    code = ('import json,sys,warnings; warnings.filterwarnings("ignore"); import stockpyl.ss as ss\n'
+            'a=json.loads(sys.argv[1])\n'
+            'pm=a.get("pmf"); hi=None if pm is None else len(pm)-1\n'
+            'if a["fn"]=="exact": r=ss.s_s_discrete_exact(a["h"],a["p"],a["K"],False,None,hi,pm); print(repr((int(r[0]),int(r[1]),float(r[2]))))\n'
+            'else: print(repr(float(ss.s_s_cost_discrete(a["s"],a["S"],a["h"],a["p"],a["K"],pm is None,a.get("mean"),hi,pm))))\n')
+    arg = {k: (float(v) if isinstance(v, Fraction) else [float(x) for x in v] if k == 'pmf' else v) for k, v in st.items() if not k.startswith('_')}
+    try:
+        out = subprocess.run([sys.executable, '-c', code, json.dumps(arg)], stdout=subprocess.PIPE, stderr=subprocess.DEVNULL, text=True, timeout=120)
+        return out.stdout.strip().split('\n')[-1] if out.returncode == 0 else None
+    except Exception:
+        return None
+
+
+def check_seq(chk, c, res, touched):
+    """every step on its own against the oracle; returns (nontrivial flag, [(pseudo-case, result)] for the model comparison)"""
+    steps = c['steps']
+    mode = c['mode']
+    pairs = []
+    nontriv_pair = False
+    for i, st in enumerate(steps + [steps[0]]):
+        again = i == len(steps)
+        r = res[i]
+        pc = step_case(st)
+        fn = 's_s_cost_discrete' if st['fn'].startswith('cost') else 's_s_discrete_exact'
+        feat = 'poisson' if st['fn'] == 'cost_poisson' else 'custom'
+        where = 'call %d of %d (%s%s)' % (i + 1, len(steps) + 1, 'pmf handed over: ' + mode if feat == 'custom' else 'Poisson', ', the first call once more' if again else '')
+        if touched[i]:
+            chk.fail('%s|custom|call-sequence|caller-pmf-modified' % fn, '%s: the caller\'s demand_pmf list is not the same after the call' % where, public(c))
+        if again:
+            if r != res[0] and not (r[0] == 'err' and r[1] == 'TimeoutError'):
+                chk.fail('%s|%s|call-sequence|%s|same-call-different-result' % (fn, feat, mode),
+                         '%s: the identical call returned %r at the start and %r at the end of the sequence' % (where, jsonable(res[0]), jsonable(r)), public(c))
+            continue
+        if r[0] == 'err':
+            chk.fail('%s|%s|call-sequence|%s|raises-%s' % (fn, feat, mode, r[1]), '%s: valid input raises %s: %s' % (where, r[1], r[2]), public(c))
+            continue
+        bad = oracle_cost(pc, r) if st['fn'].startswith('cost') else oracle_exact(pc, r, chk)
+        iso = None
+        if bad:
+            iso = isolated_value(st)
+        for sig, what, _ in bad:
+            first = i == 0
+            chk.fail('%s|call-sequence|%s%s' % (sig, mode, '' if first else '|after-earlier-calls'),
+                     '%s: %s%s' % (where, what, '' if iso is None else ' [the same call as the only call of a new interpreter returns %s]' % iso), public(c))
+        pairs.append((pc, r))
+        if (st['fn'].startswith('cost') and st['S'] - st['s'] >= 2) or (st['fn'] == 'exact' and r[2] - r[1] >= 2): nontriv_pair = True
+    npmf = len(set(tuple(st['pmf']) for st in steps if 'pmf' in st))
+    return nontriv_pair and npmf >= 2, pairs
+
+
+def seq_key(c):
+    return json.dumps(jsonable(['seq', c['mode'], [[st['fn'], st['h'], st['p'], st['K'], st.get('pmf'), st.get('mean'), st.get('s'), st.get('S')] for st in c['steps']]]))
+
+
+def explore_seq(chk, n, do_model=True):
+    rng = chk.rng
+    info = {'fresh_calls': 0, 'fresh_same_id': 0}
+    cases = [gen_seq(rng) for _ in range(n)]
+    runs = [run_seq(c, info) for c in cases]          # all library calls first, back to back; the oracle runs afterwards
+    todo = []
+    for c, (res, touched) in zip(cases, runs):
+        chk.count('kind=seq_custom'); chk.count('seq_mode=%s' % c['mode']); chk.count('seq_steps=%d' % len(c['steps']))
+        for st in c['steps']: chk.count('seq_step=%s' % st['fn'])
+        same_len = len(set(len(st['pmf']) for st in c['steps'] if 'pmf' in st)) == 1
+        chk.count('seq_all_pmfs_same_length=%s' % same_len)
+        nontriv, pairs = check_seq(chk, c, res, touched)
+        chk.case(public(c), nontriv, seq_key(c))
+        if do_model:
+            for pc, r in pairs:
+                if pc['kind'] == 'cost_poisson': continue
+                todo.append((dict(pc, in_call_sequence=public(c)), r, model_expr(pc)))
+    for k, v in info.items():
+        chk.extra['seq_' + k] = chk.extra.get('seq_' + k, 0) + v
+    if do_model and todo:
+        out = coq_eval_sharded('c13s', 'Alg.SS', DEFS, [e for _, _, e in todo])
+        for (pc, r, _), m in zip(todo, out):
+            chk.traces += 1
+            chk.count('model_evaluated=seq_step_%s' % pc['kind'])
+            compare_model(chk, pc, r, m)
+
+
 # ------------------------------------------------------------------------------------------------ driver
 def case_key(c):
     return json.dumps(jsonable([c['kind'], c['h'], c['p'], c['K'], c.get('pmf'), c.get('mean'), c.get('s'), c.get('S')]))
@@ -525,15 +736,29 @@ def run(chk):
         plan = [('cost_custom', 400), ('cost_poisson', 150), ('exact_custom', 180), ('exact_poisson', 50), ('malformed', 60)]
     else:
         plan = [('cost_custom', 8000), ('cost_poisson', 2400), ('exact_custom', 4000), ('exact_poisson', 800), ('malformed', 500)]
+    nseq = 80 if chk.tier == 'quick' else 1500
+    explore_seq(chk, nseq)          # first: the library has evaluated nothing yet, as in a replay of one of these cases
     explore(chk, plan)
     if (chk.broken or chk.mismatches) and not chk.fails:
         # directed search for a failing input: bigger budget, oracle only
         mult = 4 if chk.tier == 'quick' else 1
+        explore_seq(chk, nseq * mult, do_model=False)
         explore(chk, [(k, n * mult) for k, n in plan if k != 'malformed'], do_model=False)
 
 
 def replay(chk, rp):
     c = rp['case']
+    if c.get('kind') == 'seq_custom':
+        for st in c['steps']:
+            for k in ('h', 'p', 'K'): st[k] = Fraction(st[k])
+            if st.get('pmf') is not None: st['pmf'] = [Fraction(x) for x in st['pmf']]
+        c.setdefault('malformed', None)
+        info = {'fresh_calls': 0, 'fresh_same_id': 0}
+        res, touched = run_seq(c, info)
+        print('implementation:', jsonable(res), info)
+        check_seq(chk, c, res, touched)
+        chk.case(public(c))
+        return
     for k in ('h', 'p', 'K'): c[k] = Fraction(c[k]) if not isinstance(c[k], str) else Fraction(c[k])
     if c.get('pmf') is not None: c['pmf'] = [Fraction(x) for x in c['pmf']]
     c.setdefault('malformed', None)
